@@ -88,6 +88,13 @@ where
         }
     }
 
+    /// Verification hook (only with `--cfg pdatastructs_verif`): stream index until which the
+    /// gap-sampling phase skips items.
+    #[cfg(pdatastructs_verif)]
+    pub fn verif_skip_until(&self) -> usize {
+        self.skip_until
+    }
+
     /// Number of samples that should be kept.
     pub fn k(&self) -> usize {
         self.k
